@@ -188,6 +188,7 @@ def run_case(case, w, only_clause=None):
         w.violation("%s: %s" % (clause, what), {"case": case, "clause": clause, "detail": detail}, finding_key=key)
 
     root = vlib.mkscratch("c07")
+    case_stage[1:] = [root]
     pkg = os.path.join(root, "c%d.package" % case["idx"])
     os.makedirs(os.path.join(pkg, "conf"))
     with open(os.path.join(pkg, "conf", "flowir_package.yaml"), "w") as f:
@@ -419,6 +420,10 @@ def run_job(job, w):
                 w.violation("exception on reload path of case %d: %s" % (case["idx"], tb[-500:]),
                             {"case": case, "clause": "exception", "detail": tb[-3000:]})
             ok = False
+        import shutil
+        os.chdir("/")
+        for d in case_stage[1:]:
+            shutil.rmtree(d, ignore_errors=True)      # keep scratch small
         w.evaluated()
         w.count("cases_run")
         if ok:
